@@ -53,7 +53,7 @@ func RunFaults(e *Env) {
 	R.Rule = "fault grid: n in 3..5 x failing subset F (all subsets for n=3, seeded sample above) x failure kind per failing node (never started, stopped before the call, stopped while its handler is gated, connection reset before / during / while the request is still queued (sender held at a hook), " +
 		"connections refused, handler error with every status code, stopped after its reply left) x variant (QC, Async, Corr) x blocking/non-blocking dial x {threshold = healthy count, never-quorum}; " +
 		"oracle: success iff the healthy replies satisfy the quorum function; Incomplete lists exactly one error line per failing node and none for healthy ones, errors = |F|, replies = n - |F|, handler failures carry the scripted code and message, " +
-		"connection failures an unavailable-type error; no quorum-function invocation contains a failing node; calls complete (hang rule); in half of the cases 4 calls with an already-ended context are issued on each healthy node while the call awaits that node's reply; distinct = grid point"
+		"connection failures an unavailable-type error; no quorum-function invocation contains a failing node; calls complete (hang rule); storms (8 goroutines of calls needing every node while another goroutine keeps breaking the nodes' streams from the sender side): every failing node named once, never together with its reply; in half of the cases 4 calls with an already-ended context are issued on each healthy node while the call awaits that node's reply; distinct = grid point"
 	R.Assume("unavailable-type = gRPC code Unavailable (incl. gorums' 'stream is down'), Canceled/EOF from a torn transport; the observed texts are listed in the evidence")
 	rng := e.Rand(7)
 	var cases []FCase
@@ -103,6 +103,7 @@ func RunFaults(e *Env) {
 		}(i, c)
 	}
 	wg.Wait()
+	RunStorm(e, "C07")
 }
 
 func unavailableType(line string) bool {
